@@ -18,6 +18,6 @@ PROP = {
 
 # (category, text, design_ref, technique)
 LEVEL = ("translation_validation",
-         "Per program: the real CLI builds the same generated program with its global definitions in 4 textual orders and in 2 partitions over 2-3 mutually importing files; acceptance, stdout and exit status must coincide across all variants (and the baseline must match the Lean reference interpreter). Behind it, Lean theorems on an abstract model of the inference loop: the results a finished run stores are the unique solution of the reference equations whatever the order in which the globals were registered (final_results_independent_of_seed_order, results_are_the_solution, finished_covers_reachable, done_keys_nodup), acyclic systems always finish (acyclic_finishes), and the cyclic case is explicitly outside the model (cyclic_never_completes). Partial: the real infer is not modelled, so the theorems do not by themselves decide the property for the code; the end-to-end runs do, per program.",
+         "Two streams. (A) per CapyCore program: the real CLI builds the same generated program with its global definitions in 4 textual orders and in 2 partitions over 2-3 mutually importing files; (B) dependency graphs of 3-12 global definitions (typed / alias-annotated / untyped constants, constants that are other constants, constants computed by comptime blocks calling functions and generics, aliases of aliases, structs and functions over aliases, a generic, array lengths from constants) in the generator's order, 3 permutations and 3 partitions, every cross-file reference qualified, compared with an independent evaluation of the graph (this stream found c70a153, ad641e3, d3d0ed9); acceptance, stdout and exit status must coincide across all variants (and the baseline must match the Lean reference interpreter). Behind it, Lean theorems on an abstract model of the inference loop: the results a finished run stores are the unique solution of the reference equations whatever the order in which the globals were registered (final_results_independent_of_seed_order, results_are_the_solution, finished_covers_reachable, done_keys_nodup), acyclic systems always finish (acyclic_finishes), and the cyclic case is explicitly outside the model (cyclic_never_completes). Partial: the real infer is not modelled, so the theorems do not by themselves decide the property for the code; the end-to-end runs do, per program.",
          "§4 C20",
          "end-to-end translation validation over permutations/partitions + Lean 4 proof of order-independence on an abstract model of the inference loop")
